@@ -154,7 +154,77 @@ def run_c09(tier):
         shutil.rmtree(work, ignore_errors=True)
 
 
+# ------------------------------------------------------------------ C10
+DIM_LIB = ["varintDimension.c", "varintExternal.c"]
+
+
+def run_c10(tier):
+    import re
+    t0 = time.time()
+    work = vlib.scratch("C10")
+    model = Model()
+    try:
+        r = vlib.tlc_or_broken("DimensionModel.tla", "DimensionModel.cfg", workers=4, xmx="2g")
+        model.add("DimensionModel", r)
+        dims = set()
+        for a, b in re.findall(r'<<\s*"DIM",\s*<<([\d,\s]+)>>,\s*<<([\d,\s]+)>>\s*>>', r["out"], re.S):
+            dims.add("DIM %s %s" % (" ".join(re.findall(r"\d+", a)), " ".join(re.findall(r"\d+", b))))
+        if len(dims) < 200:
+            raise Broken("DimensionModel produced too few dimension pairs (%d)" % len(dims))
+        path = os.path.join(work, "dims.txt")
+        with open(path, "w") as f:
+            f.write("\n".join(sorted(dims)) + "\n")
+        tiers = ["pinned", "debug"] if tier == "quick" else ["pinned", "debug", "simd"]
+        traces, cmds = [], []
+        for t in tiers:
+            drv = vlib.build_driver("drv_dimension", t, DIM_LIB, extra_flags=["-std=gnu11"])
+            for s_ in range(vlib.NCPU):
+                out = os.path.join(work, "dim-%s-%02d.ndjson" % (t, s_))
+                traces.append(out)
+                cmds.append([drv, path, str(s_), str(vlib.NCPU), out])
+        seeds = [vlib.SEED] if tier == "quick" else [vlib.SEED + k for k in range(6)]
+        alltr = []
+        for sd in seeds:
+            cmds2 = []
+            for c in cmds:
+                c2 = list(c)
+                c2[-1] = c2[-1].replace(".ndjson", "-s%d.ndjson" % sd)
+                alltr.append(c2[-1])
+                cmds2.append(c2)
+            vlib.run_many(cmds2, env={"VERIF_SEED": sd})
+        traces = alltr
+        events, rejects, _ = vlib.validate(traces, "DimensionTrace.tla", "DimensionTrace.cfg", xmx="3g")
+
+        def mut(ev):
+            if ev.get("e") != "DimHdr" or ev["wc"] < 2:
+                return None
+            ev = dict(ev)
+            ev["wc"] = ev["wc"] - 1
+            return ev
+        neg = vlib.negative_control(traces[0], "DimensionTrace.tla", "DimensionTrace.cfg", mut)
+        classes, samples = vlib.classes_of(
+            traces, lambda ev: (ev["e"], ev.get("kind"), ev.get("w"), ev.get("op"),
+                                sum(1 for b in ev.get("rows", []) if b), sum(1 for b in ev.get("cols", []) if b)))
+        histories = sum(1 for t in traces for ln in open(t) if ln.startswith('{"e":"DimNew"'))
+        rule = ("dimension pairs: the %d (rows, cols) pairs at the byte-width boundaries 256^(k-1), 256^k-1 and rows=0 "
+                "enumerated by TLC (all 72 width combinations): header round trip, width macros, header length, "
+                "packed form; cell writes at {row 0, 1, last} x {col 0, last} for bits and 1/3/8-byte entries wherever "
+                "the cell address is below 2^40, inside a PROT_NONE reservation with only the header page and the "
+                "cell's page accessible; %d write sequences of 14 steps on small fully allocated matrices of every "
+                "entry kind (bit, unsigned 1..8, float, double%s) with cross-cell re-reads carried as trace-spec "
+                "state; class = (event, kind, width, op, row width, col width)"
+                % (len(dims), histories, ", half-float" if "simd" in tiers else "; half-float needs -mf16c: thorough tier"))
+        return vlib.finish("C10", tier, t0, model, events, len(traces), rejects, samples, classes, rule,
+                           ["cells whose address is at or above 2^40 (column widths 7-8 with row >= 1) are not "
+                            "accessed; their header and width decoding is still checked",
+                            "half-float values are restricted to exactly representable ones"],
+                           extra={"negative_control": neg, "tiers": tiers, "write_sequences": histories})
+    finally:
+        shutil.rmtree(work, ignore_errors=True)
+
+
 def prebuild():
+    vlib.build_driver("drv_dimension", "pinned", DIM_LIB, extra_flags=["-std=gnu11"])
     vlib.build_driver("drv_packed", "pinned", [], extra_flags=["-std=gnu11"], extra_src=["pk_gen.c"])
     vlib.build_driver("drv_bitstream", "pinned", [], extra_flags=["-std=gnu11"], extra_src=BS_SRC)
 
